@@ -210,6 +210,24 @@ func emptyItemCases(c *Ctx, i int, g *Gen) {
 			return ast.NewListNode(v1, ast.NewIntNode(1, v2)).FillVariables(map[string]interface{}{v1: empty()}).FillVariables(map[string]interface{}{v2: 5})
 		}},
 	}
+	// an item type of the application's own (the interface is public: a format the library has no node for), with a
+	// variable of its own or filled, in a list next to the library's nodes
+	fv := g.newVar()
+	shapes = append(shapes, []struct {
+		how  string
+		real []string
+		mk   func() ast.ItemNode
+	}{
+		{"foreign-open", []string{fv}, func() ast.ItemNode { return ast.NewListNode(leaf(), &jisNode{name: fv}) }},
+		{"foreign-open-nested", []string{fv}, func() ast.ItemNode {
+			return ast.NewListNode(ast.NewListNode(ast.NewASCIINode("k"), ast.NewListNode(&jisNode{name: fv})), leaf())
+		}},
+		{"foreign-open-and-own", []string{v1, fv}, func() ast.ItemNode { return ast.NewListNode(ast.NewIntNode(2, v1), &jisNode{name: fv}) }},
+		{"foreign-open-own-filled", []string{fv}, func() ast.ItemNode {
+			return ast.NewListNode(ast.NewIntNode(2, v1), &jisNode{name: fv}).FillVariables(map[string]interface{}{v1: 3})
+		}},
+		{"foreign-open-alone", []string{fv}, func() ast.ItemNode { return &jisNode{name: fv} }},
+	}...)
 	for _, sh := range shapes {
 		ev := J{"ev": "snapempty", "how": sh.how, "built": false, "vars": []interface{}{}, "real": []interface{}{}, "bytes": []int{}, "size": -2,
 			"msgbuilt": false, "msgvars": []interface{}{}, "msgbytes": []int{}}
@@ -241,6 +259,46 @@ func emptyItemCases(c *Ctx, i int, g *Gen) {
 		c.emit(i, ev)
 		c.count("snap.emptyitem")
 	}
+}
+
+// jisNode: an item type that is not the library's (JIS-8 text, format code 0o21), holding one variable until it is filled
+type jisNode struct {
+	name string
+	text string
+	done bool
+}
+
+func (n *jisNode) Size() int {
+	if n.done {
+		return len(n.text)
+	}
+	return -1
+}
+func (n *jisNode) Variables() []string {
+	if n.done {
+		return []string{}
+	}
+	return []string{n.name}
+}
+func (n *jisNode) FillVariables(values map[string]interface{}) ast.ItemNode {
+	if v, ok := values[n.name]; ok && !n.done {
+		if s, ok := v.(string); ok {
+			return &jisNode{name: n.name, text: s, done: true}
+		}
+	}
+	return n
+}
+func (n *jisNode) ToBytes() []byte {
+	if !n.done {
+		return []byte{}
+	}
+	return append([]byte{0x45, byte(len(n.text))}, n.text...)
+}
+func (n *jisNode) String() string {
+	if !n.done {
+		return "<J " + n.name + ">"
+	}
+	return fmt.Sprintf("<J %q>", n.text)
 }
 
 func renameEll(t *GItem, from, to string) {
